@@ -610,6 +610,26 @@ def syncGenesis (C : Cfg) (st : St) (g : Hdr) : St × Out :=
          canon := upd st.canon g.number (some g.id)
          height := g.number }, .ok)
 
+/-- Specification vocabulary: the ancestors `l` (parent first) above the nearest checkpoint (a header whose number is
+divisible by `Epoch`, or the trust root), newest first, and that checkpoint. -/
+def sinceCheckpoint (C : Cfg) : List Stored → List Stored × Option Stored
+  | [] => ([], none)
+  | [s] => ([], some s)
+  | s :: t :: rest =>
+    if s.hdr.number % C.epoch == 0 then ([], some s)
+    else (s :: (sinceCheckpoint C (t :: rest)).1, (sinceCheckpoint C (t :: rest)).2)
+
+/-- Specification vocabulary: the clique signer set for a child of `l.head`: the checkpoint's list, then every later
+ancestor that carries a vote (non-zero coinbase) applied oldest first. -/
+def replay (C : Cfg) (l : List Stored) : Option Snap :=
+  match sinceCheckpoint C l with
+  | (after, some cp) =>
+    match applyAll zeroAddr ⟨cp.hdr.vals.foldl (fun acc a => insertSigner a acc) [], [], []⟩ none
+        (((after.filter (fun s => s.hdr.coinbase != zeroAddr)).reverse).map (·.hdr)) with
+    | .ok (snap, _) => some snap
+    | .error _ => none
+  | (_, none) => none
+
 inductive Op where
   | genesis (g : Hdr)
   | hdr (h : Hdr)
